@@ -61,6 +61,13 @@ def rule_subtraction(ctx: Ctx):
     else:
         if norm(lp.iter) in (p_segs, f"list({p_segs})", f"reversed({p_segs})") and isinstance(lp.target, ast.Name):
             segvar = lp.target.id
+        elif norm(lp.iter) == f"range(len({p_segs}))" and body and isinstance(body[0], ast.Assign) and isinstance(body[0].targets[0], ast.Name) and \
+                norm(body[0].value) in (f"{p_segs}.pop()", f"{p_segs}.pop(0)", f"{p_segs}.pop(-1)") and \
+                not any(isinstance(c, ast.Call) and isinstance(c.func, ast.Attribute) and norm(c.func.value) == p_segs and c.func.attr in ("append", "extend", "insert")
+                        for b in body for c in ast.walk(b)):
+            # as many pops as the list had elements, nothing put back into it: every segment once
+            segvar = body[0].targets[0].id
+            body = body[1:]
     if segvar is None:
         ctx.undecided("R-C16-1", f, lp, "loop does not visit every available segment once (while len(segments) > 0: pop / for segment in segments)")
         return
